@@ -87,7 +87,7 @@ fn check(id: &'static str, tier: Tier) -> i32 {
         }
         "C16" => {
             let mut ctx = Ctx::new(id, tier, "exploration");
-            props::conc::check_conc(&mut ctx, props::conc::cfg_c16(), props::conc::c16_strategy, props::conc::RULE_C16, 8, 600)
+            props::conc::check_conc(&mut ctx, props::conc::cfg_c16(), props::conc::c16_strategy, props::conc::RULE_C16, 8, 250)
         }
         "C14" => {
             let mut ctx = Ctx::new(id, tier, "exploration");
